@@ -16,7 +16,7 @@ pub fn c05(rep: &mut Report, cfg: &Cfg) {
     let mut rng = cfg.rng(check);
     let mut lock = Lock::new(Some(0));
     lock.full_every = 512;
-    let judge = Judge::FULL;
+    let judge = Judge::FULL.only(super::common::is_flow);
     let mut work = 0u64;
     let reps = cfg.n(3, 40);
 
@@ -294,7 +294,7 @@ pub fn calltree_session(rep: &mut Report, check: &str, seed: u64, verbose: bool)
     let mut r = Regs { er: gen::regs(&mut rng), ccr: rng.u8(), pc: funcs[0].addr };
     r.er[7] = sp_base | (if rng.chance(1, 3) { 0 } else { (rng.u8() as u32) << 24 });
     sess.set_regs(&r);
-    let judge = Judge::FULL;
+    let judge = Judge::FULL.only(super::common::is_flow);
     let mut shadow: Vec<(u32, u32)> = vec![];
     let mut maxdepth = 0usize;
     let mut steps = 0u64;
@@ -407,7 +407,7 @@ pub fn c06(rep: &mut Report, cfg: &Cfg) {
     let mut rng = cfg.rng(check);
     let mut lock = Lock::new(Some(0));
     lock.full_every = 512;
-    let judge = Judge::FULL;
+    let judge = Judge::FULL.only(super::common::is_exception);
     let mut work = 0u64;
     let reps = cfg.n(2, 30);
     // 1. TRAPA #1-3 x all 256 CCR; RTE x all 256 saved CCR values
@@ -516,7 +516,7 @@ pub fn excwalk_session(rep: &mut Report, check: &str, seed: u64, verbose: bool) 
     let mut r = Regs { er: gen::regs(&mut rng), ccr: rng.u8(), pc: code_at(&mut rng, code_dram) };
     r.er[7] = sp_base | (if rng.chance(1, 3) { 0 } else { (rng.u8() as u32) << 24 });
     sess.set_regs(&r);
-    let judge = Judge::FULL;
+    let judge = Judge::FULL.only(super::common::is_exception);
     let replay = || format!("check={} kind=excwalk seed={}", check, seed);
     // shadow frame stack: state that must be restored by the matching RTE
     let mut shadow: Vec<Regs> = vec![];
